@@ -14,7 +14,7 @@ package metrics
 //@   noframe
 //@   wraps_signed
 //@   requires c != nil
-//@   requires forall(i, 0, len(c.history), c.history[i] != nil && allocated(c.history[i]) && allocated(c.history[i].Delta) && allocated(c.history[i].TimeUnixMilli) && allocated(c.history[i].RollUp))
+//@   requires wfHist(c)
 //@   modifies c.history
 //@   assert_at "newHistory = append(newHistory, h)": last == nil
 //@   // Conservation of the total (C19), as bookkeeping over the run of the loop: gin accumulates
@@ -27,12 +27,15 @@ package metrics
 //@   ghost_at "newHistory = append(newHistory, last)": ghost(gout) = ghost(gout) + dOf(last)
 //@   ghost_at "newHistory = append(newHistory, h)": ghost(gout) = ghost(gout) + dOf(h)
 //@   ensures (ghost(gin) - ghost(gout)) % 18446744073709551616 == 0
+//@   ensures wfHist(c)
 //@   ensures forall(i, 0, old(len(c.history)), old(c.history[i]).Delta == old(c.history[i].Delta) && (old(c.history[i].Delta) != nil ==> *old(c.history[i]).Delta == old(*c.history[i].Delta)))
 //@   loop 1:
 //@     modifies nothing
 //@     invariant -1 <= rangeindex && rangeindex < len(c.history)
 //@     invariant last != nil ==> last.Delta != nil && last.TimeUnixMilli != nil && fresh(last) && fresh(last.Delta)
 //@     invariant cap(newHistory) == 0 || fresh(newHistory)
+//@     invariant forall(j, 0, len(newHistory), newHistory[j] != nil && allocated(newHistory[j]) && allocated(newHistory[j].Delta) && allocated(newHistory[j].TimeUnixMilli) && allocated(newHistory[j].RollUp))
+//@     invariant last != nil ==> allocated(last) && allocated(last.Delta) && allocated(last.TimeUnixMilli) && allocated(last.RollUp)
 //@     invariant (ghost(gin) - ghost(gout) - ite(last != nil, mathint(*last.Delta), 0)) % 18446744073709551616 == 0
 //@     invariant forall(i, 0, len(c.history), c.history[i].Delta == old(c.history[i].Delta) && (c.history[i].Delta != nil ==> *c.history[i].Delta == old(*c.history[i].Delta)))
 
@@ -52,7 +55,7 @@ package metrics
 //@   mode int
 //@   noframe
 //@   wraps_signed
-//@   requires c != nil && forall(i, 0, len(c.history), c.history[i] != nil && c.history[i].Delta != nil && allocated(c.history[i]) && allocated(c.history[i].Delta))
+//@   requires c != nil && wfHist(c) && forall(i, 0, len(c.history), c.history[i].Delta != nil)
 //@   ensures delta != 0 && old(c.timeSeries) && (old(c.op) + 1) % 1000 != 0 ==> len(c.history) == old(len(c.history)) + 1
 //@   ensures delta != 0 && old(c.timeSeries) && (old(c.op) + 1) % 1000 != 0 ==> forall(i, 0, old(len(c.history)), c.history[i] == old(c.history[i]) && *c.history[i].Delta == old(*c.history[i].Delta))
 //@   ensures delta != 0 && old(c.timeSeries) && (old(c.op) + 1) % 1000 != 0 ==> c.history[len(c.history) - 1] != nil && c.history[len(c.history) - 1].Delta != nil && *c.history[len(c.history) - 1].Delta == delta
